@@ -6,6 +6,7 @@ From PP Require Import Kern.RBool.
 From PP Require Import Gen.KHydIncompNp Gen.KHydIncompNb Gen.KHydCompNp Gen.KHydCompNb Gen.KPmNp Gen.KPmNb.
 From PP Require Import Gen.KDerivedNp Gen.KDerivedNb Gen.KCalcLambda.
 From PP Require Import C09.Model C09.KernelFacts C09.Proofs.
+From PP Require C06.Model C04.Model C04.ProofsReduce.
 Import ListNotations.
 Open Scope R_scope.
 
@@ -215,6 +216,23 @@ Theorem disabled_load_is_absent : forall (A : Type) (zero one : A) (add mul sub 
   table_load zero one add mul s (r :: rows) j = table_load zero one add mul s rows j.
 Proof. intros A zero one add mul sub opp Rth. exact (table_load_drop_disabled zero one add mul sub opp Rth). Qed.
 Print Assumptions disabled_load_is_absent.
+
+(* 5. disabled_is_absent for branches and junctions, structural part: cited from C04 (builder g2).  The active pit the
+   solver works on (rows selected by the in-service / connectivity masks, FROM_NODE / TO_NODE renumbered) is the pit
+   of the net in which the unmarked junction and branch rows are deleted.  Numeric columns are per-row copies. *)
+Theorem disabled_is_absent_structural : forall js tabs nmask bmask,
+  NoDup js -> length nmask = length js -> length bmask = length (concat tabs) ->
+  (forall r, In r (C06.Model.select bmask (concat tabs)) ->
+     exists kf kt, (kf < length js)%nat /\ (kt < length js)%nat /\
+                   C04.Model.nthb nmask kf = true /\ C04.Model.nthb nmask kt = true
+                   /\ C04.Model.r_from r = nth kf js 0%Z /\ C04.Model.r_to r = nth kt js 0%Z) ->
+  map C04.ProofsReduce.ends (C04.Model.mk_branches (C06.Model.select nmask js) (C04.Model.select_tabs bmask tabs)) =
+  map (fun bf => (fst (snd bf), snd (snd bf),
+                  (C04.Model.b_active (fst bf), C04.Model.b_directed (fst bf), C04.Model.b_frc (fst bf))))
+      (combine (C06.Model.select bmask (C04.Model.mk_branches js tabs))
+               (C04.Model.reduce_ft nmask bmask (C04.Model.mk_branches js tabs))).
+Proof. exact C04.ProofsReduce.reduce_eq_delete. Qed.
+Print Assumptions disabled_is_absent_structural.
 
 (* ------------------------------------------------------------------ 6. pressure_shift (liquids) *)
 
